@@ -4,6 +4,8 @@ import PqlModel.Props.C13Exact
 import PqlModel.Props.C10SpanIR
 import PqlModel.Props.C11WalkIR
 import PqlModel.Props.C12NoPanicIR
+import PqlModel.Props.IRHeadlines
+import PqlModel.Props.C09ScanIR
 #print axioms Pql.C12.C12_scan_progress
 #print axioms Pql.C12.C12_scan_length_le
 #print axioms Pql.C12.C12_split_shorter
@@ -39,3 +41,9 @@ import PqlModel.Props.C12NoPanicIR
 #print axioms Pql.NoPanic.C12_cli_ir_no_panic
 #print axioms Pql.NoPanic.C12_cli_ir_nonvacuous
 #print axioms Pql.NoPanic.C12_translated_code_never_panics
+#print axioms Pql.IRHead.C12_on_translated_code
+#print axioms Pql.IRHead.C12_scan_loop_total
+#print axioms Pql.IRHead.C12_run_irLib_total
+#print axioms Pql.ScanIR.C12_Scan_ir_no_panic
+#print axioms Pql.ScanIR.C09_Scan_ir
+#print axioms Pql.ScanIR.Scan_ir
